@@ -6,6 +6,8 @@
 package c08
 
 import (
+	gvfs "github.com/lni/vfs"
+
 	dragonboat "github.com/lni/dragonboat/v4"
 	"github.com/lni/dragonboat/v4/config"
 	"github.com/lni/dragonboat/v4/internal/fileutil"
@@ -87,3 +89,30 @@ func ReadSnapshotMetadata(dir string, fs IFS) (ss pb.Snapshot, err error) {
 
 // IsShrunk is rsm.IsShrunkSnapshotFile.
 func IsShrunk(fp string, fs IFS) (bool, error) { return rsm.IsShrunkSnapshotFile(fp, fs) }
+
+// EncodeEntryCmd is rsm.GetEncoded: the Cmd of an EncodedEntry as
+// request.go's preparePayload builds it (snappy = false: the uncompressed v0 form).
+func EncodeEntryCmd(snappy bool, cmd []byte) []byte {
+	ct := config.NoCompression
+	if snappy {
+		ct = config.Snappy
+	}
+	return rsm.GetEncoded(rsm.ToDioType(ct), cmd, nil)
+}
+
+// FileChunks is transport.VerifC08FileChunks: the chunks a snapshot job sends for
+// an InstallSnapshot message carrying a recorded snapshot file.
+var FileChunks = transport.VerifC08FileChunks
+
+// NewStrictMemFS is the in-memory file system that keeps synced and unsynced state
+// apart (ResetToSyncedState = power loss).
+func NewStrictMemFS() *gvfs.MemFS { return gvfs.NewStrictMem() }
+
+// MemFS is lni/vfs's in-memory file system.
+type MemFS = gvfs.MemFS
+
+// File is a file of IFS.
+type File = vfs.File
+
+// OpenOption is part of IFS.
+type OpenOption = gvfs.OpenOption
